@@ -1573,6 +1573,14 @@ def _b_getattr(I, run, args, kwargs, node):
     return App("getattr", (v, n))
 
 
+def _b_setattr(I, run, args, kwargs, node):
+    v, n = I.resolve(run, args[0]), I.resolve(run, args[1])
+    if isinstance(n, C) and isinstance(n.v, str):
+        I.setattr(run, v, n.v, args[2], node)
+        return NONE
+    raise Unsupported(f"setattr with a non-constant attribute name at {I.locof(node)}")
+
+
 def _b_property(I, run, args, kwargs, node):
     return App("property", tuple(args))
 
@@ -1660,7 +1668,7 @@ BUILTINS = {
     "bool": _b_bool, "callable": _b_callable, "min": _b_minmax("min"), "max": _b_minmax("max"), "range": _b_range,
     "any": _b_any, "all": _b_all, "sum": _b_sum, "map": _b_map, "filter": _b_filter, "sorted": _b_sorted,
     "list": _b_list, "tuple": _b_tuple, "dict": _b_dict, "chr": _b_chr, "ord": _b_ord, "type": _b_type,
-    "hasattr": _b_hasattr, "getattr": _b_getattr, "property": _b_property, "staticmethod": _b_passthrough,
+    "hasattr": _b_hasattr, "getattr": _b_getattr, "setattr": _b_setattr, "property": _b_property, "staticmethod": _b_passthrough,
     "classmethod": _b_passthrough, "print": _b_print, "bytes": _b_bytes, "enumerate": _b_enumerate, "zip": _b_zip,
     "super": _b_super, "id": _b_id, "abs": _b_abs, "set": _b_tuple, "frozenset": _b_tuple, "iter": _b_passthrough,
 }
